@@ -11,7 +11,9 @@ import (
 	"sort"
 	"strings"
 	"testing"
+	"time"
 
+	imodels "github.com/influxdata/influxdb/models"
 	"github.com/influxdata/kapacitor"
 	"github.com/influxdata/kapacitor/keyvalue"
 	"github.com/influxdata/kapacitor/services/httpd"
@@ -24,7 +26,9 @@ import (
 // ---------------------------------------------------------------- the API alphabet
 
 const (
-	SA     = "stream|from().measurement('a')|log()"
+	// (combine().max(1) makes a running execution of this script fail when three points of measurement a carry the
+	// same time stamp: 3 combinations > 1)
+	SA     = "stream|from().measurement('a')|combine(lambda: TRUE, lambda: TRUE).as('x', 'y').max(1)|log()"
 	SB     = "stream|from().measurement('b')|log()"
 	BAD    = "stream|from("
 	BATCHX = "batch|query('SELECT v FROM \"other\".\"rp\".\"m\"').period(10s).every(10s)|log()"
@@ -82,6 +86,8 @@ func ops() []Op {
 		{"create(t2,template p1x,V2,disabled)", "POST", t, map[string]any{"id": "t2", "template-id": "p1x", "dbrps": DBRP, "vars": V2, "status": "disabled"}},
 		{"template-update(p1x,TPL2)", "PATCH", p + "/p1x", map[string]any{"script": TPL2}},
 		{"restart", "", "", nil},
+		// not an API request: data on which every running execution of script A fails at run time
+		{"runtime-failure(executions of A)", "WRITE", "", nil},
 	}
 }
 
@@ -338,6 +344,16 @@ func sameButStarted(prev, cur string) bool {
 
 type problem struct{ key, msg string }
 
+// taskLine: the line of task id in a state if it contains sub, else ""
+func taskLine(state, id, sub string) string {
+	for _, l := range strings.Split(state, "\n") {
+		if strings.HasPrefix(l, "task "+id+" ") && strings.Contains(l, sub) {
+			return l
+		}
+	}
+	return ""
+}
+
 func hist(c Case) string {
 	all := ops()
 	var s []string
@@ -403,6 +419,18 @@ func run(t *testing.T, c Case, wantSnaps bool) (steps []step, crashStates []stri
 					p = &problem{"restart-failed", fmt.Sprintf("%s: %v", hist(c), err)}
 					return
 				}
+				code = 200
+			} else if o.Method == "WRITE" {
+				s.armed = last && wantSnaps
+				for i := 0; i < 4; i++ {
+					ts := kit.T0.Add(time.Second)
+					if i == 3 {
+						ts = ts.Add(time.Second)
+					}
+					s.srv.tm.WritePoints("db", "rp", imodels.ConsistencyLevelAll, []imodels.Point{kit.MkPoint("a", map[string]string{"h": fmt.Sprint(i)}, map[string]any{"v": int64(i)}, ts)})
+					kit.Wait()
+				}
+				s.armed = false
 				code = 200
 			} else {
 				if last && wantSnaps {
@@ -510,6 +538,24 @@ func check(t *testing.T, c Case, r *rep.R, cache map[string][]step) []problem {
 			if st.state != afterRestart(prev) {
 				add("restart-changes-state", fmt.Sprintf("after %s the API shows\n%s\nbefore the restart it showed\n%s", h, st.state, prev))
 			}
+		case o.Method == "WRITE":
+			// O9: an execution failing at run time changes nothing in the catalogue: the tasks and templates keep
+			// their last accepted definition; enabled tasks may have stopped executing
+			pl, cl := strings.Split(prev, "\n"), strings.Split(st.state, "\n")
+			same := len(pl) == len(cl)
+			for i := 0; same && i < len(pl); i++ {
+				if pl[i] == cl[i] {
+					continue
+				}
+				if strings.HasPrefix(pl[i], "task ") && strings.Replace(pl[i], " status=enabled executing=true ", " status=enabled executing=false ", 1) == cl[i] {
+					startFailed[strings.Fields(pl[i])[1]] = true
+					continue
+				}
+				same = false
+			}
+			if !same {
+				add("runtime-failure-changed-catalogue", fmt.Sprintf("%s: an execution failed at run time, afterwards the API shows\n%s\nbefore it showed\n%s", h, st.state, prev))
+			}
 		case st.code >= 400:
 			// O1: a rejected request leaves no trace (a task that was stored but failed to start is the documented exception)
 			if !sameButStarted(prev, st.state) && !(st.code == 500 && startFailure(st.state)) {
@@ -543,6 +589,17 @@ func check(t *testing.T, c Case, r *rep.R, cache map[string][]step) []problem {
 			}
 			if (ex && !en) || (en && !ex && !startFailed[id]) {
 				add("executing-vs-enabled:"+cls, fmt.Sprintf("after %s: %s", h, l))
+			}
+		}
+		// O8: an accepted template rename takes the template's tasks along
+		if o.Name == "template-update(p1,id p2)" && st.code < 300 {
+			for _, l := range strings.Split(prev, "\n") {
+				if strings.HasPrefix(l, "task ") && strings.Contains(l, " template=p1 ") {
+					id := strings.Fields(l)[1]
+					if taskLine(st.state, id, " template=p2 ") == "" {
+						add("template-rename-lost-tasks", fmt.Sprintf("%s: task %s was created from template p1, after the accepted rename to p2 the API shows\n%s", h, id, st.state))
+					}
+				}
 			}
 		}
 		// O5: template update all or none
@@ -631,7 +688,7 @@ func check(t *testing.T, c Case, r *rep.R, cache map[string][]step) []problem {
 func TestCheck(t *testing.T) {
 	defer kit.CleanupTmp()
 	r := rep.New("C14", "model_checking",
-		"task catalogue on the real task_store service (real handlers invoked through their registered routes, real Bolt file, real TaskMaster): EVERY history up to the depth bound, from the empty catalogue and from a preset catalogue (two templates whose ids are in a prefix relation, one task each), over 30 API operations on two task ids and two templates (create enabled/disabled, with a bad script, with a batch script whose start fails, from a template with good/ill-typed vars; update of script, status, id (rename, also onto an existing id), template, vars; delete; template create/update (one update fails on the tasks lacking a variable)/rename/delete; clean restart). After every operation the API's view (task list and template list, raw scripts) is read back. Oracles: a rejected request leaves the view unchanged and has no hidden effect (the rest of the history ends as it does without the request); an accepted delete/create has its effect; executing (API and TaskMaster agree, and the TaskMaster executes nothing the catalogue does not list) iff enabled and startable; a paged listing equals the slice of the full listing; an operation on one template leaves the tasks of the other alone; a clean restart changes nothing but brings enabled tasks back; a template update changes all of its tasks or none. For every history up to a smaller depth, the Bolt file is copied before and after every storage transaction of the last operation and a fresh service is started on every copy: the view must equal the state before or after that operation. states = histories, transitions = operations")
+		"task catalogue on the real task_store service (real handlers invoked through their registered routes, real Bolt file, real TaskMaster): EVERY history up to the depth bound, from the empty catalogue and from a preset catalogue (two templates whose ids are in a prefix relation, one task each), over 30 API operations on two task ids and two templates (create enabled/disabled, with a bad script, with a batch script whose start fails, from a template with good/ill-typed vars; update of script, status, id (rename, also onto an existing id), template, vars; delete; template create/update (one update fails on the tasks lacking a variable)/rename/delete; clean restart; and one non-API event: data on which every running execution of script A fails at run time). After every operation the API's view (task list and template list, raw scripts) is read back. Oracles: a rejected request leaves the view unchanged and has no hidden effect (the rest of the history ends as it does without the request); an accepted delete/create has its effect; executing (API and TaskMaster agree, and the TaskMaster executes nothing the catalogue does not list) iff enabled and startable; a paged listing equals the slice of the full listing; an operation on one template leaves the tasks of the other alone; a clean restart changes nothing but brings enabled tasks back; a template update changes all of its tasks or none; an accepted template rename takes the template's tasks along; an execution failing at run time changes nothing in the catalogue (the stored definitions stay the last accepted ones). For every history up to a smaller depth, the Bolt file is copied before and after every storage transaction of the last operation and a fresh service is started on every copy: the view must equal the state before or after that operation. states = histories, transitions = operations")
 	defer r.Write()
 	r.Assumption("an enabled task whose start fails stays stored (enabled, not executing) although the request is answered 500: documented exception to 'no trace'")
 	r.Assumption("bbolt commit atomicity is trusted")
